@@ -59,7 +59,7 @@ def unit_props(unit):
                 if len(a) >= 5 and a[3] == 'as' and a[4] == 'callee':
                     continue  # callee contracts are proved (and their tags counted) in their home unit
                 scan(a[2])
-            elif s.startswith('//@ props'):
+            elif s.startswith('//@ props') or s.startswith('//@ consumers'):
                 props.update(s.split()[2:])
             elif not (rel.startswith('spec/') or rel.startswith('prelude/')):
                 # membership comes from contract files only; tags in prelude/spec files serve failure attribution
